@@ -140,10 +140,18 @@ func checkFmt(w *eng.W, fv fmtVal, s ref.Spec, st string) {
 	if got2 != want {
 		w.R.Fail(eng.Case{Op: "Decimal.Append", Args: []string{fv.b.Hex(), st}, Got: strconv.Quote(got2), Want: strconv.Quote(want), Note: fv.v.String()})
 	}
-	// caller-supplied buffers: empty with capacity 1, a prefix in a tight and in a roomy buffer (one per call, rotating)
+	// caller-supplied buffers: empty with capacity 0 and 1, a prefix in an exactly full, a tight and a roomy buffer (one per call, rotating)
 	var buf []byte
 	pre := ""
-	switch (len(st) + int(fv.b[15]) + int(fv.b[0])) % 3 {
+	switch (len(st) + int(fv.b[15]) + int(fv.b[0])) % 6 {
+	case 3:
+		buf = []byte("ab")[:2:2] // exactly full
+		pre = "ab"
+	case 4:
+		buf = []byte{} // non-nil, no capacity
+	case 5:
+		buf = append(make([]byte, 0, 4), "abc"...)[:3:3] // exactly full, odd length
+		pre = "abc"
 	case 0:
 		buf = make([]byte, 0, 1)
 	case 1:
@@ -349,7 +357,13 @@ func C07(r *eng.Run) {
 				want := ref.FormatFloat(fv.dig, verb, p)
 				w.Set1I("Format", string(verb), fv.b, int64(p))
 				got := dec.Format(d, verb, p)
-				got2 := string(dec.Append([]byte("ab"), d, verb, p))
+				pbuf := []byte("ab")[:2:2] // exactly full; a roomy and a nil-based one on alternate precisions
+				if p%3 == 1 {
+					pbuf = append(make([]byte, 0, 80), "ab"...)
+				} else if p%3 == 2 {
+					pbuf = append([]byte(nil), "ab"...)
+				}
+				got2 := string(dec.Append(pbuf, d, verb, p))
 				w.EvalN(2)
 				if got != want || got2 != "ab"+want {
 					w.R.Fail(eng.Case{Op: "Format", Args: []string{fv.b.Hex(), string(verb), itoa(p)}, Got: strconv.Quote(got) + " / " + strconv.Quote(got2), Want: strconv.Quote(want), Note: fv.v.String()})
